@@ -1039,6 +1039,52 @@ def c07_repointed_links(wroot, rng, tag):
     return viol
 
 
+def c07_shared_root(wroot, rng, tag):
+    """Two pairs that share ONE directory in the same argument position: (laptop, server) is synced, then
+    (desktop, server) runs for the first time. Its own recorded state does not exist; the other pair's must
+    not be used."""
+    viol = []
+    root = os.path.join(wroot, "shared%s" % tag)
+    rmtree(root)
+    home = os.path.join(root, "home")
+    os.makedirs(home)
+    d = {nm: os.path.join(root, nm) for nm in ("laptop", "desktop", "server")}
+    for v in d.values():
+        os.makedirs(v)
+    env = base_env(home)
+    pos = rng.pick(["second", "first"])
+    pair = (lambda x: (d[x], d["server"])) if pos == "second" else (lambda x: (d["server"], d[x]))
+    shared = b"recorded content " + rng.bytes(4).hex().encode()
+    for nm in ("laptop", "server"):
+        write_file(os.path.join(d[nm], "docs/report.txt"), shared)
+        write_file(os.path.join(d[nm], "notes.txt"), b"notes v0")
+        write_file(os.path.join(d[nm], "shared.cfg"), b"cfg of the first pair")
+    r1 = run(["bisync", *pair("laptop")], env)
+    if "Bidirectional sync complete" not in r1.stdout:
+        return None
+    if rng.chance(1, 2):
+        run(["bisync", *pair("laptop")], env)
+    write_file(os.path.join(d["desktop"], "shared.cfg"), b"cfg of the desktop")
+    write_file(os.path.join(d["desktop"], "only-desktop"), b"d")
+    pre = {nm: content_map(snapshot(d[nm])) for nm in ("desktop", "server")}
+    r2 = run(["bisync", *pair("desktop")], env)
+    post = {nm: content_map(snapshot(d[nm])) for nm in ("desktop", "server")}
+    label = {"shared_root_position": pos, "run": r2.brief()}
+    for nm in ("desktop", "server"):
+        gone = sorted(p for p in pre[nm] if p not in post[nm])
+        if gone:
+            viol.append(("C07|path-removed|first-run-of-a-pair-sharing-one-root-with-a-synced-pair", dict(label, side=nm, paths=gone)))
+    alls = [set(post[nm].values()) for nm in ("desktop", "server")]
+    for nm in ("desktop", "server"):
+        for p, c in pre[nm].items():
+            if any(c not in a for a in alls):
+                viol.append(("C07|version-not-on-both-sides|first-run-of-a-pair-sharing-one-root-with-a-synced-pair", dict(label, side=nm, path=p)))
+    if "SAFE no-base mode" not in r2.stderr:
+        viol.append(("C07|no-safe-mode-banner|first-run-of-a-pair-sharing-one-root-with-a-synced-pair", dict(label, stderr=r2.stderr[-200:])))
+    rmtree(root)
+    return viol
+
+
 def _c07_worker(args):
     seedv, lo, hi, wroot, sweep = args
     res = {"evaluations": 0, "distinct": set(), "viol": [], "counters": {}, "samples": [], "inconclusive": 0}
@@ -1059,6 +1105,13 @@ def _c07_worker(args):
             res["evaluations"] += 1
             cnt("runs[roots-are-links-repointed-to-another-pair]")
             res["distinct"].add("repointed-links|%d" % (lo % 5))
+            for sig, det in v:
+                res["viol"].append((sig, det))
+        v = c07_shared_root(wroot, SplitMix.derive(seedv, "c07shared", lo), "%d" % lo)
+        if v is not None:
+            res["evaluations"] += 1
+            cnt("runs[first-run-of-a-pair-sharing-one-root-with-a-synced-pair]")
+            res["distinct"].add("shared-root|%d" % (lo % 5))
             for sig, det in v:
                 res["viol"].append((sig, det))
     for idx in range(lo, hi):
